@@ -102,6 +102,52 @@ def dest_kind(snap, loc):
     return 'file'
 
 
+def mapping_free(st, snap0, snap1, bag0, overwrite, r):
+    """the part of the statement that needs no attribution of printed indices to entries: whatever was selected, an entry
+    whose recorded original location was occupied never leaves the trash without --overwrite, the occupant (and what a
+    symlink occupant points to) stays as it was; with --overwrite an entry that left the trash replaced a non-directory occupant"""
+    st.probes['judged-without-index-mapping'] += 1
+    res = []
+    byloc = {}
+    for e in bag0:
+        if e.location is not None:
+            byloc.setdefault(e.location, []).append(e)
+    for loc, ents in sorted(byloc.items()):
+        if len(ents) != 1 or loc not in snap0:
+            continue
+        if any(o != loc and (o.startswith(loc + '/') or loc.startswith(o + '/')) for o in byloc):
+            continue
+        e = ents[0]
+        dk = dest_kind(snap0, loc)
+        want = OR.payload_tree(snap0, e)
+        tk = {'f': 'file', 'd': 'dir', 'l': 'symlink', 'o': 'other'}.get((want.get('') or 'o')[0], 'none')
+        gone = OR.pair_gone(snap1, e)
+        tgt = ML.resolve(snap0, loc) if snap0[loc][0] == 'l' else None
+        if not overwrite:
+            if gone or not OR.pair_intact(snap0, snap1, e):
+                res.append(('C06/clobbered-without-overwrite/trashed=%s/dest=%s' % (tk, dk),
+                            'destination %r (%s) was occupied, no --overwrite, but the entry %r left the trash or changed (exit %s)\nstderr: %s'
+                            % (loc, dk, e, r.exit, r.errs[-300:])))
+            elif not Wd.same_tree(Wd.subtree(snap0, loc), Wd.subtree(snap1, loc)) or \
+                    (tgt and tgt not in byloc and not Wd.same_tree(Wd.subtree(snap0, tgt), Wd.subtree(snap1, tgt))):
+                res.append(('C06/clobbered-without-overwrite/trashed=%s/dest=%s' % (tk, dk),
+                            'destination %r (%s) was occupied, no --overwrite, but it (or what it points to) changed' % (loc, dk)))
+        elif gone and not dk.startswith('dir'):
+            if not Wd.same_tree(want, Wd.subtree(snap1, loc)):
+                res.append(('C06/overwrite-did-not-replace/trashed=%s/dest=%s' % (tk, dk),
+                            '--overwrite: entry %r left the trash but its destination %r (%s) holds %r instead of the restored %s'
+                            % (e, loc, dk, Wd.subtree(snap1, loc), tk)))
+            elif tgt and tgt not in byloc and dk != 'symlink->nothing' and not Wd.same_tree(Wd.subtree(snap0, tgt), Wd.subtree(snap1, tgt)):
+                res.append(('C06/overwrite-touched-link-target/trashed=%s/dest=%s' % (tk, dk),
+                            '--overwrite on %r (%s): the former target %r changed' % (loc, dk, tgt)))
+    seen, out = set(), []
+    for sg, m in res:
+        if sg not in seen:
+            seen.add(sg)
+            out.append((sg, m))
+    return out
+
+
 def check(sim, case, st):
     sim.setup(case)
     spec = case['procs'][0]
@@ -119,11 +165,11 @@ def check(sim, case, st):
     listing = OR.parse_restore_listing(r.outs)
     if listing is None or not listing:
         st.probes['premise-not-met:nothing-listed'] += 1         # what must be listed is C13's
-        return []
+        return mapping_free(st, snap0, snap1, bag0, overwrite, r)
     line = spec.get('stdin', '').split('\n', 1)[0]
     idxs, det = MR.parse(line, len(listing))
     if idxs is None or not det:
-        return []
+        return mapping_free(st, snap0, snap1, bag0, overwrite, r)
     order = []
     for i in idxs:
         if i not in order:
@@ -146,7 +192,8 @@ def check(sim, case, st):
         loc = listing[i][2]
         ents = bykey.get((listing[i][1], loc), [])
         if len(ents) != 1:
-            return []
+            # the printed line cannot be attributed to one entry (e.g. it shows another path than the recorded one)
+            return mapping_free(st, snap0, snap1, bag0, overwrite, r)
         e = ents[0]
         want = OR.payload_tree(snap0, e)
         tk = {'f': 'file', 'd': 'dir', 'l': 'symlink', 'o': 'other'}.get((want.get('') or 'o')[0], 'none')
